@@ -1,5 +1,7 @@
 """Build-time tool (never run by a check): enumerates Stream B on the CURRENT tree and rewrites the
-auto-generated entries of known_findings.json.  Usage: python -m harness.tools_known [C01 C03 ...]
+auto-generated entries of known_findings.json.  Usage: python -m harness.tools_known [C01 C03 ...] [--families a,b]
+(--families: only these generator families are enumerated and only their auto entries are rewritten; the auto entries of
+the other families of the named properties are kept as they are.)
 Run it only on the unchanged /repo: whatever fails there is a genuine engine defect (DESIGN §7)."""
 import collections
 import json
@@ -12,14 +14,26 @@ from . import streamb
 
 
 def main():
-    props = sys.argv[1:] or [p for p, pl in streamb.PLAN.items() if pl["families"]]
+    args = sys.argv[1:]
+    only = None
+    if "--families" in args:
+        i = args.index("--families")
+        only = set(args[i + 1].split(","))
+        args = args[:i] + args[i + 2:]
+    props = args or [p for p, pl in streamb.PLAN.items() if pl["families"]]
     path = fw.KNOWN
     data = json.load(open(path))
-    keep = [k for k in data["findings"] if not (k.get("auto") and k["properties"][0] in props)]
+
+    def entry_family(k):
+        return k["id"].split("-SB-", 1)[1].rsplit("-", 1)[0] if "-SB-" in k["id"] else None
+    keep = [k for k in data["findings"] if not (k.get("auto") and k["properties"][0] in props
+                                                and (only is None or entry_family(k) in only))]
     new = []
     for prop in props:
         plan = streamb.PLAN[prop]
         for fam, nq, nt in plan["families"]:
+            if only is not None and fam not in only:
+                continue
             runs = []
             for rep in range(2):      # determinism of the real engine under the harness: two identical passes
                 st, fails = streamb.run_family(None, prop, fam, nt)
@@ -49,6 +63,8 @@ def main():
 
 def generator_kind(fam):
     # wording of the auto entries (the v1 wording must stay as committed)
+    if fam.startswith("sb_reuse"):
+        return "the enumerated path re-use scope"
     return "the enumerated nested-folder scope" if fam.startswith("sb_nest") else "the unrestricted generator"
 
 
